@@ -240,7 +240,95 @@ def _patterns(ef, sec, seg, NoteSection, NoteSegment):
     yield 'nested.segments', out
 
 
+def _drain(iters):
+    """Round-robin over several iterators until all are exhausted."""
+    outs, live = [[] for _ in iters], [True] * len(iters)
+    while any(live):
+        for k, it in enumerate(iters):
+            if live[k]:
+                try:
+                    outs[k].append(next(it))
+                except StopIteration:
+                    live[k] = False
+    return outs
+
+
+def _patterns_multi(ef, s1, s2, seg, split, n, NoteSection, NoteSegment):
+    """Two note sections in one segment; each pattern yields (name, notes, lo, hi): the expected notes are exp[lo:hi]."""
+    yield 'section1.list', list(s1.iter_notes()), 0, split
+    yield 'section2.list', list(s2.iter_notes()), split, n
+    yield 'segment.list', list(seg.iter_notes()), 0, n
+    a, b, c = _drain([s1.iter_notes(), seg.iter_notes(), s2.iter_notes()])
+    yield 'interleaved.section1', a, 0, split
+    yield 'interleaved.segment', b, 0, n
+    yield 'interleaved.section2', c, split, n
+    # the second section first, the first one abandoned half-way and resumed behind it
+    it = s1.iter_notes()
+    first = []
+    try:
+        first.append(next(it))
+    except StopIteration:
+        pass
+    yield 'section2.while.section1.open', list(s2.iter_notes()), split, n
+    first.extend(it)
+    yield 'section1.resumed', first, 0, split
+    out = []
+    for s in ef.iter_sections():
+        if isinstance(s, NoteSection):
+            out.extend(s.iter_notes())
+    yield 'nested.sections', out, 0, n
+    out = []
+    for g in ef.iter_segments():
+        if isinstance(g, NoteSegment):
+            out.extend(g.iter_notes())
+    yield 'nested.segments', out, 0, n
+
+
+def _replay_multi(run, ctx, case, ELFFile, NoteSection, NoteSegment, tables):
+    data = concretise(case['chunks'])
+    exp = case['notes']
+    pat = ['-']
+
+    def bad(clause, expected, observed):
+        brief = {k: v for k, v in case.items() if k != 'chunks'}
+        brief.update(bytes_b64=core.b64(data), pattern=pat[0], tables=tables)
+        run.mismatch(clause, case['tag'], brief, expected, observed)
+
+    try:
+        ef = ELFFile(io.BytesIO(data))
+        s1, s2, seg = ef.get_section(case['sec']), ef.get_section(case['sec2']), ef.get_segment(case['seg'])
+    except Exception as ex:
+        bad('open', 'ELFFile', 'exc:%s:%s' % (type(ex).__name__, ex))
+        return
+    kinds = [type(s1).__name__, type(s2).__name__, type(seg).__name__]
+    if kinds != ['NoteSection', 'NoteSection', 'NoteSegment']:
+        bad('front-end', ['NoteSection', 'NoteSection', 'NoteSegment'], kinds)
+        return
+    got_ext = [[s1['sh_offset'], s1['sh_offset'] + s1['sh_size']], [s2['sh_offset'], s2['sh_offset'] + s2['sh_size']],
+               [seg['p_offset'], seg['p_offset'] + seg['p_filesz']]]
+    if got_ext != [case['ext'], case['ext2'], case['segext']]:
+        bad('extent', [case['ext'], case['ext2'], case['segext']], got_ext)
+        return
+    try:
+        judged = []
+        for name, got, lo, hi in _patterns_multi(ef, s1, s2, seg, case['split'], len(exp), NoteSection, NoteSegment):
+            pat[0] = name
+            plain = (lo, hi, [_plain(n) for n in got])
+            if plain in judged:
+                continue
+            judged.append(plain)
+            if len(got) != hi - lo:
+                bad('count', hi - lo, len(got))
+            for i, (e, o) in enumerate(zip(exp[lo:hi], got)):
+                _cmp_note(ctx, bad, lo + i, e, o, case['core'])
+    except Exception as ex:
+        import traceback
+        bad('exception', 'no exception', 'exc:%s:%s @ %s' % (type(ex).__name__, ex, traceback.format_exc().splitlines()[-3].strip()))
+
+
 def _replay_notes(run, ctx, case, ELFFile, NoteSection, NoteSegment, tables):
+    if case['mode'] == 'multi':
+        return _replay_multi(run, ctx, case, ELFFile, NoteSection, NoteSegment, tables)
     data = concretise(case['chunks'])
     tag = case['tag']
     exp = case['notes']
@@ -482,7 +570,9 @@ def check(run):
     run.rule = ('G cases = finished extents of the Notes writer (size sweep over namesz/descsz residues incl. header-only notes and '
                 'trailing padding, owner x type x e_type sweep, decoded descriptors incl. property lists under several e_types, '
                 'declared alignment - p_align x sh_addralign in {0, 1, 4, 8, 16} - x sizes that tell 4- from 8-byte padding apart, decoded '
-                'descriptors behind a plain note that puts them at file offsets 4 mod 8, stab sections of several units each led by its N_UNDF header), '
+                'descriptors behind a plain note that puts them at file offsets 4 mod 8, name fields whose namesz covers 0..5 nulls behind the one that '
+                'ends the owner - plain and decoded notes, the owner being the string before the first null -, two adjacent note sections covered by one '
+                'segment (each section yields its own notes, the segment all of them), file maps of up to 5 mappings with page sizes 1 .. 64 KiB, stab sections of several units each led by its N_UNDF header), '
                 'each exposed as SHT_NOTE '
                 'section and PT_NOTE segment of one ELF image and consumed in 8 iterator patterns; distinct by file bytes; '
                 'non-trivial = at least one note / stab record.  T cases = note sections and segments of the corpus files; '
@@ -500,15 +590,23 @@ def check(run):
                         'in ET_CORE files types 3 and NT_FILE are generated with owner "CORE" and a well-formed descriptor only',
                         'the elements of a property list follow one another by their padded sizes (linux-abi: pr_padding is part of the element), '
                         'whatever the file offset of the descriptor',
+                        'the owner of a note is the string that ends at the first null of its name field (gABI: "the first namesz bytes in name contain a '
+                        'null-terminated character representation of the entry\'s owner"); further nulls inside namesz belong to the field, not to the owner, '
+                        'and the type names and descriptor layouts of an owner apply to every field that spells it; fields with a null followed by other '
+                        'bytes, or without a null, are not generated',
+                        'a note section ends at sh_offset + sh_size even when another note section follows it directly in the file; a PT_NOTE segment '
+                        'over several note sections yields the notes of all of them in file order',
                         'the count in an N_UNDF unit header of a stab section covers its own unit; every 12-byte record up to sh_size is a stab',
                         'corpus extents whose notes overrun the extent (dwarf_phantombytes.elf marks DWARF sections SHT_NOTE) '
                         'are not well-formed inputs and are not judged']
     # (Notes_quick_all = Notes_quick.cfg + mode "align")
-    cfgs = ['Notes_quick_all'] if run.tier == 'quick' else ['Notes_thorough', 'Notes_thorough3', 'Notes_thorough_props', 'Notes_thorough_props2']
+    cfgs = ['Notes_quick_all'] if run.tier == 'quick' else ['Notes_thorough', 'Notes_thorough3', 'Notes_thorough_props', 'Notes_thorough_props2', 'Notes_thorough_owners']
     seen = set()
     ctx = None
     nalign = {'extents': 0, 'where 8-byte padding would walk differently': 0}
     nprops = {'extents with a property list': 0, 'where alignment by file offset would walk the list differently': 0}
+    nowners = {'extents of mode "owners"': 0, 'where "owner = first namesz - 1 bytes" would name a note differently': 0}
+    nmulti = {'images with two note sections in one segment': 0, 'where both sections hold notes': 0}
     nunits = {'stab sections': 0, 'with a unit header that does not cover the rest of the section': 0}
     provers = _apalache_start(run)
     for cfg in cfgs:
@@ -538,6 +636,12 @@ def check(run):
                 if case['mode'] == 'align':
                     nalign['extents'] += 1
                     nalign['where 8-byte padding would walk differently'] += 1 if case['alt8'] else 0
+                if case['mode'] == 'multi':
+                    nmulti['images with two note sections in one segment'] += 1
+                    nmulti['where both sections hold notes'] += 1 if 0 < case['split'] < len(case['notes']) else 0
+                if case['mode'] == 'owners':
+                    nowners['extents of mode "owners"'] += 1
+                    nowners['where "owner = first namesz - 1 bytes" would name a note differently'] += 1 if case['namealt'] else 0
                 if any(n['dk'] == 'props' for n in case['notes']):
                     nprops['extents with a property list'] += 1
                     nprops['where alignment by file offset would walk the list differently'] += 1 if case['propabs'] else 0
@@ -551,16 +655,20 @@ def check(run):
     run.extra['align_cases'] = nalign
     run.extra['property_list_cases'] = nprops
     run.extra['stab_unit_cases'] = nunits
+    run.extra['owner_field_cases'] = nowners
+    run.extra['multi_section_cases'] = nmulti
     if run.tier == 'quick' and not (nprops['where alignment by file offset would walk the list differently'] and
-                                    nunits['with a unit header that does not cover the rest of the section']):
-        raise core.MachineryError('the quick configuration no longer generates property lists off their alignment / multi-unit stab sections')
+                                    nunits['with a unit header that does not cover the rest of the section'] and
+                                    nowners['where "owner = first namesz - 1 bytes" would name a note differently']):
+        raise core.MachineryError('the quick configuration no longer generates property lists off their alignment / multi-unit stab sections / '
+                                  'name fields with several nulls inside namesz')
     # termination in its liveness form (fair walker steps lead to "done") on a small instance; nothing is emitted
     run.tlc('Notes', 'Notes_live', emit=False)
     _trace_check(run)
     _apalache_collect(run, provers)
     run.extra['exhaustive'] = True
     run.extra['explanation'] = ('exhaustive within the bounds of the configuration(s) %s (see the cfg comment blocks); '
-                                'TLC checks EveryNoteOnce, ExtentConsumed, SectionViewEqualsSegmentView, NotesTile, DescRoundTrip, OnlyDefiningOwnerDecodes, '
+                                'TLC checks EveryNoteOnce, ExtentConsumed, SectionViewEqualsSegmentView, SectionsSplitSegment, NotesTile, DescRoundTrip, OnlyDefiningOwnerDecodes, OwnerUpToFirstNul, '
                                 'StabsExact, UnitsTile, PropsRelative, ImageCarriesExtent, AlignOnlyInHeaders, WalkerProgress and Termination on the specification itself' % ', '.join(cfgs))
     if not run.samples:
         run.samples.append({'note': 'no sample'})
